@@ -26,7 +26,7 @@ def check(repo: Repo, rep, tier):
     result_unmodified(repo, rep)
     one_mode(repo, rep)
     mode_table(repo, rep)
-    stale_bindings(repo, rep, None, "e.g. a copied `config` never sees the format-command of the session, so whole-file and fragment formatting disagree")
+    stale_bindings(repo, rep, {"config"}, "e.g. a copied `config` never sees the format-command of the session, so whole-file and fragment formatting disagree")
 
 
 def result_unmodified(repo: Repo, rep):
